@@ -22,8 +22,8 @@ claimed = {
  'C06': ("Bounded symbolic execution of Delete/GetAndDelete/DeleteExpired on the real stack with a ledger-recording callback installed at construction or swapped by SetEvictedCallback (4 modes), from an arbitrary 2-entry pre-state: ledger == exactly the entries removed, with their own key and value. Cache and CacheOf.",
          "Bounds: 2 entries, 1 call. Concurrent ledger linearizability is checked by the C02 harness (second assertion).",
          "solver-based bounded symbolic execution with callback ledger"),
- 'C07': ("Bounded symbolic execution: Range on the real Map from arbitrary valid table states (1-2 root buckets, chains of 1-2 buckets, every occupancy) with a visitor that records and may stop at a symbolic position: duplicate-free enumeration of exactly the abstract content, immediate stop; cache-level Range/Items with 3 entries of symbolic expiry: exactly the unexpired ones, nil visitor ignored. Cache and CacheOf.",
-         "Bounds: tables <=2 root buckets, chains <=2, 3 cache entries. Concurrent traversals are not covered by this check.",
+ 'C07': ("Bounded symbolic execution: Range on the real Map/MapOf from arbitrary valid table states (1-2 root buckets, chains of 1-2 buckets, every occupancy) with a visitor that records and may stop at a symbolic position: duplicate-free enumeration of exactly the abstract content, immediate stop; cache-level Range/Items with 3 entries of symbolic expiry: exactly the unexpired ones, nil visitor ignored. Cache and CacheOf.",
+         "Bounds: tables <=2 root buckets, chains <=3, 3 cache entries; concurrent part: Range || one writer on the real Map (2 goroutines, <=3 context switches, 1 root bucket) and Items || Set on the cache over the map's atomic specification with arbitrary placement of 3 entries. A traversal racing with a writer *inside* a bucket copy is a data race and is decided by C14.",
          "solver-based bounded symbolic execution of Range/Items"),
  'C09': ("Bounded symbolic execution of the real constructors (New+options in two orders, NewDefault, New()), config normalisation and every storing/refreshing/reading method with all int64 TTL, default, cleanup-interval and clock values symbolic: stored instant, GetWithExpiration/GetWithTTL reports, re-arm vs untouched, SetDefaultExpiration frame condition, visibility around the instant. Cache and CacheOf.",
          "Bounds: constructor + optional SetDefaultExpiration + optional pre-Set + 1 method + reads; clock < 2^61 then any later instant < 2^62; the 32-root-bucket table the constructor asks for is built with 1 root bucket; MinCapacity default.",
@@ -45,9 +45,9 @@ claimed.update({
  'C08': ("Bounded symbolic execution: the striped counter sum == number of stored entries is part of the representation invariant every Map/MapOf step re-establishes (incl. the recount of a grow and the fresh table of Clear); cache Count == physically stored entries after every operation, == live entries after DeleteExpired, 0 after Clear; quiescent Size after two-goroutine runs with symbolic schedules (insert || delete of one key).",
          "Bounds: as C11 shapes; concurrent part 2 goroutines, 1 op each, <=3 context switches, no resize during the calls.",
          "solver-based bounded symbolic execution + symbolic schedules, counter invariant"),
- 'C10': ("Bounded symbolic execution of MapOf[K,int] steps for K in {struct{int8;int64} (padding), nested struct with string and array fields, bool, int8, *int incl. nil, string} under an uninterpreted hasher that respects == (so any two distinct keys may collide in bucket, in h2 or completely): results equal the reference map's, i.e. two keys address the same entry iff Go == says so; pointer keys stay reachable after the pointee changes. Only this half of the property is claimed.",
-         "NOT claimed: that the default hasher (runtime.typehash based, incl. its interface-kinded branch) respects == - its body is not encoded. Float and interface-typed keys are outside. 1 root bucket, 2 symbolic slots.",
-         "solver-based bounded symbolic execution over a key-type catalogue with uninterpreted ==-respecting hasher"),
+ 'C10': ("Two obligations. (a) Bounded symbolic execution of MapOf[K,int] steps for K in {struct{int8;int64} (padding), nested struct with string and array fields, bool, int8, *int incl. nil, string} under an uninterpreted hasher that respects == (any two distinct keys may collide in bucket, in h2 or completely): results equal the reference map's, i.e. two keys address the same entry iff Go == says so; pointer keys stay reachable after the pointee changes. (b) The real body of defaultHasher[K] is executed (reflect.TypeOf/Elem/Kind resolved on the static types, the reinterpretation of an interface variable as {typ, word} modelled with the gc ABI's layout) with runtime.typehash replaced by its contract - p must address a value of type t, equal values hash equally, a nil descriptor is a nil dereference - for K in {int, string, float64 (+0, -0, 1.5), padded struct, *int, any holding nil/int/string/*int/struct}: a short history (Store, Store, pointee change, Load, Size, Delete) must follow builtin-map semantics.",
+         "Bounds: 1 root bucket, 2-3 symbolic slots (a); 3 keys and 6 calls (b). What runtime.typehash computes is trusted to meet its contract; NaN keys and key types outside the catalogue are outside.",
+         "solver-based bounded symbolic execution over a key-type catalogue; default hasher body executed with runtime.typehash modelled by contract"),
  'C14': ("Symbolic data-race query: all heap accesses of two goroutines' go/ssa code are recorded with their scheduling group; the solver searches inputs and a schedule under which two conflicting accesses (same cell, one write, at least one plain) are adjacent; covers map operations incl. Size and overflow-bucket append vs the lock-free reader, safe publication of a freshly initialised pointee, and SetDefaultExpiration/SetEvictedCallback vs every reader of those settings. Counterexamples are confirmed by the Go race detector on a natively parallel run.",
          "Bounds: 2 goroutines, 1 call each, adjacency at the round boundaries of a 2-round schedule, 1-2 root buckets, no resize during the calls. Compiler/hardware reordering below the SC-for-atomics contract is trusted.",
          "solver-based symbolic data-race query, confirmed with go test -race"),
@@ -55,6 +55,11 @@ claimed.update({
          "Bounds: 1 root bucket, <=2 pre-state entries, reader loops unwound 9 times; writers in the middle of a grow/shrink copy are outside; cache-level Get* are the same Load underneath plus a lock-free expiry test (not separately encoded).",
          "solver-based bounded symbolic execution with symbolic stall point"),
 })
+claimed_other = {
+ 'C15': ("Restricted claim, decided by bounded symbolic execution of the real constructors and of the janitor goroutine's body run as a call, plus reachability over the symbolic heap: a janitor is started iff the normalised cleanup interval is > 0 (all int64 values; New+options, NewDefault, New(); Cache and CacheOf) and its ticker gets exactly that interval; one tick - no user call - removes the expired entry, keeps the live one and fires the evicted callback; a finalizer is registered on the object handed to the user, that object is unreachable from everything the goroutine holds, and the finalizer closes the channel the goroutine selects on. NOT claimed: that ticks arrive within a bounded number of intervals of real time and that the collector runs the finalizer (Go runtime).",
+         "Level 'other': part of the property's statement is about the Go runtime (timers, GC) and cannot be encoded; structural facts (spawn count, reachability, finalizer, closed channel) come from the symbolic heap and are not independently confirmed by the native replay, which confirms only what a janitor pass removes and reports.",
+         "solver-based bounded symbolic execution of constructors and janitor body + symbolic-heap reachability"),
+}
 na_reason = {
  'C15': "check being built (structural claim on constructor/janitor; GC and ticker timing cannot be encoded)",
 }
@@ -64,9 +69,15 @@ m = {"version": 1, "setup_cmd": "./setup.sh",
      "engines": [{"name": "gsx", "path": "/verif/gsx", "serves_properties": props,
                   "kind_free_text": "go/ssa -> SMT (QF_UFBV) guarded symbolic executor with symbolic schedules; z3 5.1 (z3-new) back end, native replay of every counterexample"}],
      "checks": [], "not_applicable": [],
-     "notes": "fix: commits in /repo: GetAndDelete expired (C01), Compute(delete) zero value (C11), DeleteExpired re-check under lock (C02/C06); see known_findings.json"}
+     "notes": "fix: commits in /repo: GetAndDelete expired (C01), Compute(delete) zero value (C11), DeleteExpired re-check under lock (C02/C06), default hasher for interface-typed keys (C10); see known_findings.json"}
 for p in props:
-    if p in claimed:
+    if p in claimed_other:
+        text, bounds, tech = claimed_other[p]
+        m['checks'].append({"property_id": p, "quick_cmd": f"./check {p} quick", "thorough_cmd": f"./check {p} thorough",
+                            "evidence_file": f"/verif/evidence/{p}.json", "replay_cmd_template": "./bin/gsx replay {path}", "engine": "gsx",
+                            "level_claimed": {"category": "other", "text": text, "design_ref": "DESIGN.md §3 " + p},
+                            "level_note": TRUST + bounds, "technique": tech})
+    elif p in claimed:
         text, bounds, tech = claimed[p]
         m['checks'].append({"property_id": p, "quick_cmd": f"./check {p} quick", "thorough_cmd": f"./check {p} thorough",
                             "evidence_file": f"/verif/evidence/{p}.json", "replay_cmd_template": "./bin/gsx replay {path}", "engine": "gsx",
